@@ -3,6 +3,7 @@
 from __future__ import annotations
 
 import logging
+import os
 import queue
 import signal
 import tempfile
@@ -1005,6 +1006,8 @@ class MarkovChainMonteCarloMethod:
         ]
         # memory-mapping of chain data used if force_memmap flag set or sampling chains
         # in parallel
+        if n_process is None:
+            n_process = os.cpu_count()
         use_memmap = force_memmap or n_process > 1
         # use context-manager to ensure any temporary directory created for memory-maps
         # deleted before exiting
